@@ -27,6 +27,7 @@ structure AllGood (n : Nat) : Prop where
   stmt : ∀ st, sizeOf st < n → okS st = true → Good (compileStmt st)
 
 macro_rules | `(tactic| good_leaf) => `(tactic| with_reducible first
+  | exact good_emitConstant _ _ | exact good_emitConstLit _ _
   | exact good_compileDefine _ _ _ _ | exact good_compileAssignSym _ _ _ | exact good_findSymbolSelf _
   | exact good_compileIdent _ _ | exact good_compileBranch _ _ | exact good_defineLocal _
   | exact good_setParams _ _ | exact good_declParamVariadic _ _ | exact good_declGlobals _ _
@@ -258,8 +259,7 @@ theorem step_expr {n : Nat} (ih : AllGood n) (e : Expr) (hsz : sizeOf e < n + 1)
     split
     · exact GoodP.throw_err
     · rename_i hle
-      have := good_addFnConstant fn ⟨by omega, hr⟩
-      good
+      exact good_emitFnConstant pos fn _ ⟨by omega, hr⟩
   | call pos ell f args =>
     rw [okE, Bool.and_eq_true] at hok
     have ha := ih.exprs args (by sz) hok.2
@@ -302,8 +302,7 @@ theorem compileStmt_eq (st : Stmt) : compileStmt st = (match st with
   | .incdec pos tok tokPos e => do
     -- compileAssignStmt(node, [e], [IntLit 1 @tokPos], Var, op) with op a compound assignment
     compileExpr e
-    let i ← addConstant (.int 1#64)
-    emit_ tokPos OpConstant [i]
+    emitConstant tokPos (.int 1#64)
     (match compoundOp (if tok == tDec then tSubAssign else tAddAssign) with
      | some t => emit_ pos OpBinaryOp [t]
      | none => pure ())
